@@ -535,15 +535,18 @@ def replay_case(camp, b, mode):
                 states={str(i): camp.states[i] for i in used})
 
 
-def run_campaign(ctx, camp, behs, jobs=10, tag="jobs", timeout=1500, per_request="90s"):
+def run_campaign(ctx, camp, behs, jobs=10, tag="jobs", timeout=1500, per_request="90s", both=True, ngraphs=None):
+    """both: every behaviour on both bindings; otherwise the bindings alternate"""
     reqs, meta = [], []
-    for b in behs:
+    for n, b in enumerate(behs):
         pool = camp.pools[b["pool"] - 1]
         steps = request_steps(pool, b["hist"])
-        for mode in ("storage", "server"):
+        for mode in (("storage", "server") if both else (("storage", "server")[n % 2],)):
             reqs.append(dict(i=len(reqs), mode=mode, steps=steps))
             meta.append((b, mode))
-    lines = [dict(setup=True, graphs=camp.graphs, driver="badger")] + reqs
+    if not reqs:
+        return Counter()
+    lines = [dict(setup=True, graphs=camp.graphs[:ngraphs] if ngraphs else camp.graphs, driver="badger")] + reqs
     inp = ctx.write_ndjson("%s_in.ndjson" % tag, lines)
     outp = os.path.join(ctx.scratch, "%s_out.ndjson" % tag)
     ctx.harness(["jobsh", "-j", str(jobs), "-timeout", per_request], input_path=inp, output_path=outp, timeout=timeout)
@@ -568,6 +571,7 @@ def run_campaign(ctx, camp, behs, jobs=10, tag="jobs", timeout=1500, per_request
         for e in b["hist"]:
             stats[e["op"]] += 1
         stats["calls"] += len(b["hist"])
+        stats["runs_" + mode] += 1
         if v:
             sig, what, k = v
             ctx.diverge(sig, "%s [%s binding, call %d: %s]" % (what, mode, k + 1, b["hist"][k]["op"]),
@@ -738,12 +742,12 @@ def run(ctx):
     ctx.log("curated+scaled: star sizes %s, %d traversal states, %d pools" % (sizes, len(sts), ncur))
     camp = Campaign("jobs", graphs, states, pools, pb)
     # (c) behaviours generated by TLC from Jobs.tla over those pools
-    cap = 420 if quick else 2400
+    cap = 260 if quick else 2400
     behs, _ = gen_behaviours(ctx, pb.module(pools), num=1, depth=max(800, int(cap * 4.5)), timeout=1200, label="behaviours")
     chosen = pick_behaviours(ctx, behs, cap)
     sysb = gen_systematic(ctx, pb.module(pools))
     nsys = len(sysb)
-    scap = 1000 if quick else 12000
+    scap = 560 if quick else 12000
     if len(sysb) > scap:
         by_pool = {}
         for b in sysb:
@@ -757,25 +761,26 @@ def run(ctx):
                 if len(sysb) >= scap:
                     break
             by_pool = {k: v for k, v in by_pool.items() if v}
-    ctx.log("%d random behaviours generated, %d kept; %d systematic resume behaviours, %d kept; all replayed on both bindings" % (
-        len(behs), len(chosen), nsys, len(sysb)))
+    ctx.log("%d random behaviours generated, %d kept; %d systematic resume behaviours, %d kept; replayed on %s" % (
+        len(behs), len(chosen), nsys, len(sysb), "alternating bindings" if quick else "both bindings"))
     nrandom = len(chosen)
     chosen = chosen + sysb
     # (d) replay + judgement
-    light = [b for b in chosen if src[b["pool"] - 1] != "scaled"]
+    light = [b for b in chosen if src[b["pool"] - 1] != "scaled"]      # family graphs only: the workers load nothing else
     heavy = [b for b in chosen if src[b["pool"] - 1] == "scaled"]
-    total = run_campaign(ctx, camp, light, jobs=10, tag="fam", timeout=2400, per_request="300s")
-    total.update(run_campaign(ctx, camp, heavy, jobs=6, tag="scaled", timeout=2400, per_request="600s"))
+    total = run_campaign(ctx, camp, light, jobs=10, tag="fam", timeout=3000, per_request="300s", both=not quick, ngraphs=NFAMILY)
+    total.update(run_campaign(ctx, camp, heavy, jobs=6, tag="scaled", timeout=3000, per_request="600s", both=not quick))
     resumes, types, szs, nsearch = coverage_of(camp, chosen)
     for b in chosen[:3]:
         pool = pools[b["pool"] - 1]
         ctx.sample(dict(source=src[b["pool"] - 1],
                         calls=[dict(e, q="g%d:%s" % (pool[e["p"] - 1].g, ops(pool[e["p"] - 1].prog))) if "p" in e else e for e in b["hist"]]))
     ctx.cov.update(evaluations=total["calls"], distinct_nontrivial=len(resumes) + len(types),
-                   traces_validated_against_impl=2 * len(chosen), exhaustive=False,
+                   traces_validated_against_impl=total["runs_storage"] + total["runs_server"], exhaustive=False,
+                   runs_by_binding=dict(storage=total["runs_storage"], server=total["runs_server"]),
                    behaviours=len(chosen), random_behaviours=nrandom, systematic_resume_behaviours=len(sysb),
                    systematic_resume_behaviours_generated=nsys, behaviours_by_source=dict(Counter(src[b["pool"] - 1] for b in chosen)),
-                   calls_by_kind={k: v for k, v in total.items() if k not in ("calls", "diverging", "crash")},
+                   calls_by_kind={k: v for k, v in total.items() if k not in ("calls", "diverging", "crash") and not k.startswith("runs_")},
                    stored_result_types=dict(types), stored_result_sizes=sorted(x for x in szs if x >= 0),
                    distinct_resume_splits=len(resumes), searches_with_answers=nsearch, diverging_behaviours=total["diverging"],
                    invariant_states=inv.distinct, pools=len(pools),
